@@ -139,6 +139,11 @@ def run(pid, tier):
         for s_ in ((120,) if tier == "quick" else (120, 60, 200)):
             sc = runlib.barrier_scenario(s_, "first", chk.seed)
             sc["interrupt"] = {"sig": 13, "after_started": 1, "delay_s": 0.0, "release_after_s": 0.1}
+            for steps in sc["scripts"].values():
+                for st in steps:
+                    if st.get("op") == "wait":
+                        st["timeout_ms"] = 9000     # members that wait in vain say so within the time the driver watches
+            sc["straggler_wait"] = 14.0
             sc["label"] += "-sigpipe"
             scenarios.append(sc)
         # members sharing one executable file (common command directory)
@@ -170,6 +175,8 @@ def run(pid, tier):
             scenarios.append(runlib.wide_scenario(140, chk.seed, fail_at=5, mode="all"))
             scenarios.append(runlib.background_process_scenario(chk.seed))
             scenarios.append(runlib.chmod_scenario(chk.seed))
+            scenarios.append(runlib.linked_noexec_scenario(chk.seed))
+            scenarios.append(runlib.linked_noexec_scenario(chk.seed + 1, cmd_dir=True))
         if pid == "C06":
             # every member of a group has exited (one of them non-zero) before the run joins any of them
             for k, (n, ff) in enumerate([(1, True), (2, True), (3, False), (1, False)] + ([(5, True), (8, False), (2, False), (4, True)] if tier == "thorough" else [])):
